@@ -154,7 +154,7 @@ class Model:
         self._load()
 
     # --------------------------------------------------------------- inlining
-    def _inline_recording_helpers(self, mi):
+    def _inline_recording_helpers(self, mi, known=None):
         """Methods of the tracer classes may delegate part of their work to a private helper of the same class
         (`return self._binary_op(operator.add, rhs)`, `return self._jacobian_utpm(x)`, `self._seed_and_sweep(w)`).
         The rules on recorders and drivers read one method at a time, so such calls are expanded in place (parameters
@@ -164,8 +164,11 @@ class Model:
         A helper that records is marked `recording_helper` and is not a recorder site of its own."""
         for ci in mi.classes.values():
             helpers = {}
+            frozen = set((known or {}).get(mi.name + ':' + ci.name, ()))
             for name, h in ci.methods.items():
                 if not name.startswith('_') or name.startswith('__') or h.vararg or h.kwarg or h.kind == 'property':
+                    continue
+                if name in frozen:
                     continue
                 body = list(h.node.body)
                 if body and isinstance(body[0], ast.Expr) and isinstance(body[0].value, ast.Constant) and isinstance(body[0].value.value, str):
@@ -203,13 +206,23 @@ class Model:
                 if helpers[name][3]:
                     helpers[name][0].recording_helper = True
                 self.inlined.append(name)
+                # a helper whose every call has been expanded is no longer a unit of its own
+                still = any(isinstance(c, ast.Call) and isinstance(c.func, ast.Attribute) and c.func.attr == name
+                            for fi in ci.all_defs if fi.name != name for c in ast.walk(fi.node))
+                if not still and not helpers[name][3]:
+                    h_ = helpers[name][0]
+                    ci.methods.pop(name, None)
+                    ci.all_defs = [f_ for f_ in ci.all_defs if f_ is not h_]
 
-    def _inline_module_helpers(self, mi):
+    def _inline_module_helpers(self, mi, known=None):
         """the same expansion for the dispatcher modules: a public dispatcher that hands its work to a private
         module-level helper (`return _dispatch('erf', x, (x,), scipy.special)`) is read with the helper expanded"""
         helpers = {}
+        frozen = set((known or {}).get(mi.name, ()))
         for name, h in mi.functions.items():
             if not name.startswith('_') or name.startswith('__') or h.vararg or h.kwarg or h.generated:
+                continue
+            if name in frozen:
                 continue
             body = list(h.node.body)
             if body and isinstance(body[0], ast.Expr) and isinstance(body[0].value, ast.Constant) and isinstance(body[0].value.value, str):
@@ -226,13 +239,21 @@ class Model:
         if not helpers:
             return
         used = set()
-        for fi in list(mi.functions.values()):
-            if fi.name in helpers or fi.generated:
+        callers = list(mi.functions.values())
+        for ci in mi.classes.values():
+            callers.extend(ci.all_defs)
+        for fi in callers:
+            if (fi.cls is None and fi.name in helpers) or fi.generated:
                 continue
             new = _inline_calls(fi, None, helpers, used)
             if new is not None:
                 fi.node = new
         self.inlined.extend(sorted(used))
+        for name in used:
+            still = any(isinstance(c, ast.Call) and isinstance(c.func, ast.Name) and c.func.id == name
+                        for fi in callers if not (fi.cls is None and fi.name == name) for c in ast.walk(fi.node))
+            if not still:
+                mi.functions.pop(name, None)
 
     # ------------------------------------------------------------------ load
     def _load(self):
@@ -257,11 +278,12 @@ class Model:
         for mi in list(self.modules.values()):
             self._expand_templates(mi)
         self.inlined = []       # (caller FuncInfo, helper FuncInfo) pairs, see _inline_recording_helpers
-        if 'algopy.tracer.tracer' in self.modules:
-            self._inline_recording_helpers(self.modules['algopy.tracer.tracer'])
-        for mn in ('algopy.special.special', 'algopy.globalfuncs', 'algopy.linalg.linalg'):
-            if mn in self.modules:
-                self._inline_module_helpers(self.modules[mn])
+        known = _known_private()
+        for mn, mi in self.modules.items():
+            # private helpers that exist on the reference tree are part of its architecture (kernels, pullbacks: analysed as
+            # units); a private helper that is *new* is read as part of its callers
+            self._inline_recording_helpers(mi, known)
+            self._inline_module_helpers(mi, known)
 
     def _resolve_relative(self, mi, level, module):
         if level == 0:
@@ -678,6 +700,27 @@ def seq_iteration(for_stmt):
     return norm(seq), direction, want
 
 
+def _terminates(body):
+    """every path through the statement list ends in return/raise"""
+    if not body:
+        return False
+    last = body[-1]
+    if isinstance(last, (ast.Return, ast.Raise)):
+        return True
+    if isinstance(last, ast.If):
+        return bool(last.orelse) and _terminates(last.body) and _terminates(last.orelse)
+    return False
+
+
+def _known_private():
+    import json
+    pth = os.path.join(os.path.dirname(os.path.abspath(__file__)), 'known_private.json')
+    try:
+        return json.load(open(pth))
+    except Exception:
+        return {}
+
+
 class _Subst(ast.NodeTransformer):
     def __init__(self, mapping):
         self.mapping = mapping      # name -> ast expr (substitute) | str (rename)
@@ -717,7 +760,10 @@ def _inline_calls(fi, clsname, helpers, used):
             return None
         h, body, straight, _ = helpers[hname]
         tail = isinstance(st, ast.Return)
-        if not straight and not tail:
+        no_value = not any(isinstance(n, ast.Return) and n.value is not None for b in body for n in ast.walk(b))
+        early_ret = any(isinstance(n, ast.Return) for b in body[:-1] for n in ast.walk(b))
+        splice = isinstance(st, ast.Expr) and no_value and not early_ret       # procedure call: splice the whole body in
+        if not straight and not tail and not splice:
             return None
         params = list(h.params)
         recv = None
@@ -768,10 +814,15 @@ def _inline_calls(fi, clsname, helpers, used):
                 out.append(ast.Assign(targets=st.targets, value=ret))
             elif has_ret and body[-1].value is not None:
                 out.append(ast.Expr(value=ret))
+        elif splice and not tail:
+            for b in body:
+                if isinstance(b, ast.Return):
+                    continue
+                out.append(sub.visit(copy.deepcopy(b)))
         else:
             for b in body:
                 out.append(sub.visit(copy.deepcopy(b)))
-            if not isinstance(body[-1], (ast.Return, ast.Raise)):
+            if not _terminates(body):
                 out.append(ast.Return(value=ast.Constant(value=None)))
         for o in out:
             for n in ast.walk(o):
@@ -802,4 +853,54 @@ def _inline_calls(fi, clsname, helpers, used):
         return new
 
     node.body = rec(node.body)
+
+    # expression level: a helper whose body is a single `return <expr>` is expanded wherever it is called
+    class _Expr(ast.NodeTransformer):
+        def visit_Call(self, c):
+            self.generic_visit(c)
+            if clsname is None:
+                if not (isinstance(c.func, ast.Name) and c.func.id in helpers and c.func.id != fi.name):
+                    return c
+                hname, recv_expr = c.func.id, None
+            else:
+                if not (isinstance(c.func, ast.Attribute) and isinstance(c.func.value, ast.Name) and c.func.value.id in ('self', 'cls', clsname)
+                        and c.func.attr in helpers and c.func.attr != fi.name):
+                    return c
+                hname, recv_expr = c.func.attr, c.func.value.id
+            h, body, straight, _ = helpers[hname]
+            if not (len(body) == 1 and isinstance(body[0], ast.Return) and body[0].value is not None):
+                return c
+            params = list(h.params)
+            recv = None
+            if h.kind in ('method', 'classmethod') and params:
+                recv, params = params[0], params[1:]
+            if any(isinstance(a, ast.Starred) for a in c.args) or any(k.arg is None or k.arg not in params for k in c.keywords) or len(c.args) > len(params):
+                return c
+            bound = dict(zip(params, c.args))
+            for k in c.keywords:
+                bound[k.arg] = k.value
+            for p_ in params:
+                if p_ not in bound:
+                    if p_ not in h.defaults:
+                        return c
+                    bound[p_] = h.defaults[p_]
+            # names bound inside the helper expression (comprehension variables) must not capture names of the arguments
+            inner = {n.id for n in ast.walk(body[0].value) if isinstance(n, ast.Name) and isinstance(n.ctx, ast.Store)}
+            argnames = {n.id for e in bound.values() for n in ast.walk(e) if isinstance(n, ast.Name)}
+            mapping = dict(bound)
+            if recv is not None and recv_expr is not None:
+                mapping[recv] = ast.Name(id=recv_expr, ctx=ast.Load())
+            for v_ in inner & argnames:
+                mapping[v_] = v_ + '__' + h.name.strip('_')
+            new = _Subst(mapping).visit(copy.deepcopy(body[0].value))
+            for n in ast.walk(new):
+                n.lineno = c.lineno
+                n.end_lineno = getattr(c, 'end_lineno', c.lineno)
+                n.col_offset = c.col_offset
+                n.end_col_offset = getattr(c, 'end_col_offset', c.col_offset)
+            used.add(h.name)
+            changed[0] = True
+            return new
+
+    node = _Expr().visit(node)
     return node if changed[0] else None
